@@ -79,6 +79,11 @@ CHECKS = {
     technique="Pool.tla model-checked by TLC for at-most-once / dropped-never / queued-once / counters-agree under concurrent dispatchers and forced overflow; dispatch hashes evaluated on TLC-generated identity families for 1..64 workers and checked for functional dependency (TV_C18a); recorded global event order of real pool runs (hook H2) trace-validated against the pool's steps (TV_Pool)",
     text="TLC checks the accounting invariants on every interleaving of two concurrent dispatchers and 2-3 workers at queue capacities 0, 1 and 2 under each crate's counter convention; MC_C18 generates families of frames that share an identity while payload, flags, sequence numbers, TTL, IP id, TOS, window, IP header length 0..15, options, framing, truncation and direction vary, and for every worker count 1..64 the three real hash functions must be functions of the identity and valid indices; real pools are driven by 1-3 concurrent dispatcher threads with queue sizes 0/1/4 and perturbation, and the recorder's global order of dispatch-start, dispatch-end and worker-takes-packet events plus the final statistics must be a behaviour of the pool specification.",
     note="Trusted: TLC, Pool.tla / TV_Pool.tla, hook H2 (worker id from thread name, sequence numbers under the recorder lock). Before shutdown only."),
+ "C15": dict(
+    level="model_checking", design="§5 C15",
+    technique="TLA+ frame shapes with the analyzer's endpoint view and Filter!ShouldProcess (MC_C15) evaluated by TLC, incl. a model of the filter's quick decoder that must agree on the design and disagree under the historical deviations; shapes x filter configurations replayed through analyze_pcap of the four analyzers and through worker pools, filtered run compared with the unfiltered run of the admitted sub-trace",
+    text="TLC generates every framing (Ethernet, raw IP, loopback) x IPv4 header length 0..15 x IPv6 x TCP/non-TCP, each carrying a handshake, a one-segment ClientHello and an HTTP exchange in both directions, derives the endpoints the analyzer's own decoder sees and decides with the C14 filter specification which frames each of 13 configurations admits; the TCP, HTTP, TLS and unified analyzers (through their analyze_pcap front ends with with_filter) and filter-equipped worker pools must then report exactly what the unfiltered analyzer reports on the admitted sub-trace.",
+    note="Trusted: TLC, Frames/Filter specs, harness pcap writer, hook H1. Only non-empty results compared; the tls pool is exercised with Ethernet/raw framing only (it routes nothing else)."),
 }
 
 NOT_YET = {}
